@@ -67,7 +67,7 @@ def work_theorem(args):
         for o in res.obligs:
             st = solve.discharge(o, quick_ms=quick_ms, cli_timeout=cli_timeout,
                                  outdir=os.path.join(outdir, "smt2"), extra_rules=rules,
-                                 rounds=thm.options.get("axiom_rounds", 3))
+                                 rounds=thm.options.get("axiom_rounds", 3), fuel=thm.options.get("fuel", 1))
             rec = {"name": o.name_full, "group": group_of(o.name_full), "status": st.status,
                    "backend": st.backend, "secs": round(st.secs, 4), "kind": o.meta.get("kind"),
                    "clause": o.meta.get("clause"), "got": o.meta.get("got"), "want": o.meta.get("want"),
@@ -198,6 +198,8 @@ def run_property(prop, tier, seed, only=None, keep=False, jobs=None, replays_dir
     violations = []
     undecided = []
     errors = []
+    bpath = os.path.join(VERIF, "baseline_obligations.json")
+    baseline = set(json.load(open(bpath)).get(prop, [])) if os.path.exists(bpath) else set()
     n_obl = n_dis = 0
     by_backend = {}
     slowest = 0.0
@@ -275,10 +277,16 @@ def run_property(prop, tier, seed, only=None, keep=False, jobs=None, replays_dir
                 rec["native"] = found["result"]
                 rec["input_source"] = found["source"]
                 violations.append(rec)
-            elif o["status"] == "refuted":
+            elif o["status"] == "refuted" and o["group"] in baseline:
+                # the verifier refutes an obligation that is discharged on the pinned tree (baseline list)
                 rec["native"] = nat
                 rec["no_failing_input_found"] = True
                 violations.append(rec)
+            elif o["status"] == "refuted":
+                undecided.append({"theorem": t.name, "obligation": o["name"],
+                                  "why": "solver answers sat but no failing input replays and the obligation is not in "
+                                         "baseline_obligations.json (never discharged on the pinned tree): not provable from the contracts/axioms given",
+                                  "smt2": o.get("smt2")})
             else:
                 undecided.append({"theorem": t.name, "obligation": o["name"], "why": "all back ends unknown/timeout",
                                   "smt2": o.get("smt2")})
@@ -396,6 +404,15 @@ def run_property(prop, tier, seed, only=None, keep=False, jobs=None, replays_dir
         f"{len(vio_lines)} violation(s), {len(undecided)} undecided, {len(errors)} error(s), {wall:.1f}s")
     for ln in vio_lines:
         say(ln)
+    missing = sorted(baseline - set(groups)) if only is None else []
+    if missing and code == EXIT_OK:
+        for g in missing[:10]:
+            say(f"UNDECIDED property={prop} obligation group {g} of baseline_obligations.json was not generated on this tree")
+        code = EXIT_UNDECIDED
+    if os.environ.get("VERIF_UPDATE_BASELINE") and only is None:
+        data = json.load(open(bpath)) if os.path.exists(bpath) else {}
+        data[prop] = sorted(g for g, v in groups.items() if v["n"] == v["discharged"])
+        json.dump(data, open(bpath, "w"), indent=0, sort_keys=True)
     if not keep:
         shutil.rmtree(outdir, ignore_errors=True)
     if not os.listdir(replays_dir):
